@@ -365,6 +365,22 @@ func PanicLine(s string) string { return firstPanicLine(s) }
 
 // IsLibraryPanic reports whether stderr shows a Go panic / fatal error (as opposed to the watchdog).
 func IsLibraryPanic(stderr string) bool {
+	if strings.Contains(stderr, "[recovered-by-harness]") {
+		// a panic on the harness's own goroutine: it is the library's only if the panicking frame (the first one
+		// below runtime.panic) belongs to the library; otherwise it is a bug of the harness (never a verdict)
+		if i := strings.Index(stderr, "\npanic("); i >= 0 {
+			rest := stderr[i+1:]
+			lines := strings.Split(rest, "\n")
+			for k := 1; k < len(lines); k++ {
+				l := strings.TrimSpace(lines[k])
+				if l == "" || strings.HasPrefix(l, "/") || strings.HasPrefix(l, "runtime.") || strings.HasPrefix(l, "panic(") {
+					continue
+				}
+				return !strings.HasPrefix(l, "verif/harness/")
+			}
+		}
+		return false
+	}
 	return strings.Contains(stderr, "\npanic:") || strings.HasPrefix(stderr, "panic:") ||
 		strings.Contains(stderr, "fatal error:")
 }
